@@ -86,7 +86,22 @@ def combine_keys(base, span):
     return (tuple(attrs), ck(fg), bgk, link)
 
 
-def gen_line(rng, token, width):
+# control codes rich removes from any text it prints (rich.control.strip_control_codes: BEL, BS, VT,
+# FF, CR).  BS / VT / FF occur in real redirected output (nroff-style overstrike, form feeds); a line
+# that carries them must come out without them and otherwise unchanged -- characters and styling.
+# (CR stays excluded: rich defines it as "overwrite"; BEL is a legal OSC terminator.)
+CTL = "\x08\x0b\x0c"
+STRIP = {ord(c): None for c in CTL}
+
+
+def with_ctl(rng, w, p=0.05):
+    if rng.random() < p:
+        k = rng.randrange(len(w) + 1)
+        return w[:k] + rng.choice(CTL) + w[k:]
+    return w
+
+
+def gen_line(rng, token, width, ctl=True):
     """A styled line: list of [text, style]; total cell width <= width."""
     pieces = [[token, gen_style(rng) if rng.random() < 0.5 else ""]]
     used = term.text_width(token)
@@ -95,7 +110,7 @@ def gen_line(rng, token, width):
         sep = rng.choice([" ", " ", "", "  "])
         if used + term.text_width(sep + w) > width:
             break
-        pieces.append([sep + w, gen_style(rng) if rng.random() < 0.6 else ""])
+        pieces.append([sep + (with_ctl(rng, w) if ctl else w), gen_style(rng) if rng.random() < 0.6 else ""])
         used += term.text_width(sep + w)
     return pieces
 
@@ -124,7 +139,7 @@ def gen_sgr_line(rng, token, width):
         w = " " + rng.choice(WORDS)
         if used + term.text_width(w) > width:
             break
-        out.append(["t", w])
+        out.append(["t", with_ctl(rng, w)])
         used += term.text_width(w)
     return out
 
@@ -206,7 +221,7 @@ class C19:
             if rng.random() < 0.08:
                 line = []  # an empty line
             elif wide_ok and rng.random() < 0.4:
-                line = gen_line(rng, tok, int(W * 2.5))
+                line = gen_line(rng, tok, int(W * 2.5), ctl=False)
                 if rng.random() < 0.4:
                     # one unbroken word wider than the console (rich folds it), made of
                     # double-width or ASCII characters, with short words after it
@@ -421,7 +436,7 @@ class RoundTrip:
                     enc = scrub_links(pc.file.getvalue())
                     self.with_base += 1
                 text = dec.decode_line(enc)
-                want_plain = "".join(t for t, _ in pieces)
+                want_plain = "".join(t for t, _ in pieces).translate(STRIP)
                 if text.plain != want_plain:
                     self._v("round-trip", "roundtrip-text", "decoded %r, encoded %r" % (text.plain, want_plain))
                     return
@@ -432,7 +447,7 @@ class RoundTrip:
                         k = style_key(Style.parse(st)) if st else ((), None, None, None)
                     else:
                         k = combine_keys(base, st)
-                    exp.extend([k] * len(t))
+                    exp.extend([k] * len(t.translate(STRIP)))
                 from rich.console import Console
 
                 con = Console(width=10000, _environ={}, file=None, force_terminal=False)
@@ -613,7 +628,9 @@ class Proxy:
         out = []
         for ln in lines:
             r0 = scr.row
-            scr.feed(ln + "\n")
+            if ln.translate(STRIP) != ln:
+                self.probes["lines_with_stripped_controls"] = self.probes.get("lines_with_stripped_controls", 0) + 1
+            scr.feed(ln.translate(STRIP) + "\n")
             tok = re.match(r"L[oe]\d+z", term.visible_text(ln))
             pieces = self.case.get("wide", {}).get(tok.group(0)) if tok else None
             if pieces is not None:
@@ -643,7 +660,7 @@ class Proxy:
         o.cursor_hidden_expected = None
         if o.tracker:
             o.tracker.start_event()
-        o.begin_op("start", [("frame",)] if self.cfg["display"] == "progress" else [])
+        o.begin_op("start", [("frame",)], optional_frame=not (self.cfg["display"] == "progress"))
         try:
             with self.display:
                 o.end_op()
@@ -659,7 +676,7 @@ class Proxy:
                     if p and "\x1b" not in p:
                         self.probes["partial_at_stop"] += 1
                         scr = term.Screen(self.cfg["width"], 1000)
-                        scr.feed(p + "\n")
+                        scr.feed(p.translate(STRIP) + "\n")
                         tail_stages.append(("print", [scr.cells(r) for r in range(scr.row)]))
                         self.pending[ch] = ""
                 o.begin_op("stop", tail_stages + stages)
@@ -719,7 +736,7 @@ class Proxy:
             if p:
                 self.probes["flush_partial"] += 1
                 scr = term.Screen(self.cfg["width"], 1000)
-                scr.feed(p + "\n")
+                scr.feed(p.translate(STRIP) + "\n")
                 rows = [scr.cells(r) for r in range(scr.row)]
                 self.pending[ch] = ""
                 o.begin_op(["flush", ch, p], [("print", rows)])
